@@ -265,8 +265,9 @@ def run(ctx):
         tol_deep = min(TOL, 0.02 * 2 * np.pi / 2 ** n)          # a fiftieth of a tile width, for the deepest tiles
         if err > tol_deep or bool(one.increasing) != lattice.inc(n, x, y):
             ctx.violation("C04:single:deep", "create_single_tile((%d, %d, %d)) [%s, integers given as %s] is %.2e away from the subdivision of the documented layout" % (n, x, y, csname, rep, err), {"pos": (n, x, y), "cs": csname, "ints": rep})
-        if k % 2 == 0:
-            # route 4 at this depth: the point lookup of the tile's centre (psi) names this tile
+        if k % 2 == 0 and n <= 28:
+            # route 4 at this depth: the point lookup of the tile's centre (psi) names this tile (to depth 28: beyond that the
+            # lookup's double-precision arithmetic gives out - a recorded finding of C12, see known_findings.txt)
             cen = psi.centre(n, x, y)
             clon, clat = (float(v_) for v_ in lattice.vec_to_lonlat(cen))
             try:
